@@ -120,7 +120,7 @@ def deep_check(ctx, items, original=False, known=None):
             ctx.disagree("a payload walker rejects a Photoshop-written fixture (my transcription of the specification is wrong "
                          "or a deviation is not recorded)", {"file": label, "section": sect, "pos": pos, "reason": reason, "where": where})
             continue
-        if not registered_container(where):
+        if not registered_container(where) or callers_raw_bytes(b, pos):
             # an id / key psd-tools has no class for: the bytes are the caller's (a generator's blob), not the library's
             ctx.hist("payload_walker", "written:raw payload of an unregistered key / id supplied by the caller (skipped)")
             continue
@@ -351,6 +351,22 @@ def finish(ctx):
 
 # ------------------------------------------------------------------------------------------------ recording every walked file
 
+RAW_BLOCKS: set = set()
+
+
+def callers_raw_bytes(b: bytes, pos: int):
+    """is offset `pos` of the file inside a block the library wrote from the caller's raw bytes?"""
+    for blob in RAW_BLOCKS:
+        if len(blob) < 12:
+            continue
+        i = b.find(blob)
+        while i >= 0:
+            if i <= pos < i + len(blob):
+                return True
+            i = b.find(blob, i + 1)
+    return False
+
+
 class Recorder:
     """while installed, every file any part of the check hands to the skeleton walker (`psd.walk` through codec_common.pbatch)
     and that the walker accepts is remembered: those are the files the payload walkers then go through - whatever writer
@@ -359,6 +375,30 @@ class Recorder:
     def __init__(self):
         self.files: dict = {}
         self._orig = None
+        self._patched = []
+        self.enabled = True
+
+    def _wrap_raw(self, K):
+        """remember the bytes of every tagged block / image resource whose data is the caller's `bytes` (no class wrote it):
+        a walker problem inside such a block is the caller's, not the library's"""
+        orig = K.write
+
+        def write(self_, fp, *a, **kw):
+            raw = not hasattr(self_.data, "write")
+            start = fp.tell() if raw else None
+            n = orig(self_, fp, *a, **kw)
+            if raw:
+                try:
+                    end = fp.tell()
+                    if end - start <= 70000:
+                        fp.seek(start)
+                        RAW_BLOCKS.add(fp.read(end - start))
+                        fp.seek(end)
+                except Exception:  # noqa
+                    pass
+            return n
+        K.write = write
+        self._patched.append((K, orig))
 
     def install(self):
         self._orig = cc.pbatch
@@ -368,24 +408,34 @@ class Recorder:
             ans = rec._orig(reqs, *a, **kw)
             try:
                 for r, x in zip(reqs, ans):
-                    if r and r[0] == "psd.walk" and x and x[0] == "ok" and len(r[1]) <= 6_000_000:
+                    if rec.enabled and r and r[0] == "psd.walk" and x and x[0] == "ok" and len(r[1]) <= 6_000_000:
                         rec.files.setdefault(r[1], len(rec.files))
             except Exception:  # noqa
                 pass
             return ans
         cc.pbatch = pbatch
+        try:
+            from psd_tools.psd import image_resources as IR, tagged_blocks as TB
+            self._wrap_raw(TB.TaggedBlock)
+            self._wrap_raw(IR.ImageResource)
+        except Exception as e:  # noqa
+            self.broken = repr(e)[:200]
         return self
 
     def remove(self):
         if self._orig is not None:
             cc.pbatch = self._orig
             self._orig = None
+        for K, orig in self._patched:
+            K.write = orig
+        self._patched = []
 
 
 def run(ctx, fx_all, recorder):
     """called at the end of props/C03.run"""
     try:
-        recorder.remove()
+        if getattr(recorder, "broken", None):
+            ctx.disagree("TaggedBlock.write / ImageResource.write cannot be wrapped on the current source", {"error": recorder.broken})
         originals = set()
         for f in fx_all:
             try:
@@ -401,6 +451,7 @@ def run(ctx, fx_all, recorder):
         run_generated(ctx)
         run_typed_documents(ctx)
         finish(ctx)
+        recorder.remove()
     except core.Infra:
         raise
     except Exception as e:  # noqa  (the harness's own plumbing met a reshaped source: a broken tie, never exit 2)
